@@ -809,6 +809,7 @@ def run_check(prop_id, tier='quick', seed=0, budget_s=None, procs=None, replay_s
     tv_claim_fail = []
     tv_cells = 0
     shown = []
+    mismatch_detail = []
     if not confirmed:
         for s in samples[:replay_samples]:
             try:
@@ -838,6 +839,8 @@ def run_check(prop_id, tier='quick', seed=0, budget_s=None, procs=None, replay_s
                 tv_claim_fail.append({'job': s['job'], 'inputs': s['inputs'], 'failed': cctx.failed})
             if bad:
                 tv_mismatch += 1
+                mismatch_detail.append({'job': s['job'], 'inputs': _trim(s['inputs']), 'engine': _trim(_jsonable_deep(s['observed']), 6),
+                                        'real': _trim(_jsonable_deep({k: _jsonable(v) for k, v in cctx.observed.items()}), 6)})
             elif not cctx.failed:
                 validated += 1
             if len(shown) < 3:
@@ -880,6 +883,7 @@ def run_check(prop_id, tier='quick', seed=0, budget_s=None, procs=None, replay_s
         'assertions_reached': reached,
         'engine_vs_real_cells_compared': tv_cells,
         'engine_vs_real_samples_mismatching': tv_mismatch,
+        'engine_vs_real_mismatch_detail': mismatch_detail[:3],
         'unreproduced_counterexamples': len(unconfirmed),
         'functions_encoded': meta.get('functions', []),
         'sources': dict(loader.SOURCES),
